@@ -133,6 +133,25 @@ CHECKS = {
                          "snapshots, placement faults on the registration walk, gc/drop events "
                          "and a simulated scheduler",
         design="4 (C09)"),
+    "C12": dict(
+        level="exploration",
+        text=("Seeded simulated histories on 2-5 objects declaring seven Property(observe=...) "
+              "traits (five cached) over scalar, Instance, list/dict/set-item and two-link "
+              "dependencies: dependency mutations incl. shared and repeated nodes and equal-list "
+              "reassignment, reads of a generated subset of (object, property) pairs after every "
+              "op so that caches survive several changes, pickle restart (protocols 2-5) and deep "
+              "clone of the whole graph with the history continuing on the copy, gc. Getters are "
+              "callback points counting their runs. Oracle: every read equals a recomputation "
+              "from the model graph, a cached getter runs at most once per (object, property) "
+              "between two ops, and every op that alters the recomputed value delivers at least "
+              "one property event whose last 'new' is the recomputed value to observe and "
+              "on_trait_change handlers. Sampling, not proof."),
+        note=("Reads happen at quiescent points; level-aliasing graphs (K1) are excluded; the "
+              "fork uses traits' copy mode 'deep' because plain deepcopy shares Dict items by "
+              "reference (observation O3)."),
+        technique=TECH + "seeded dependency-mutation/read/restart histories against a "
+                         "recomputation model, getters as counting callback points",
+        design="4 (C12)"),
 }
 
 NOT_APPLICABLE = {
